@@ -279,6 +279,15 @@ def run_part(st, watchdog=20):
         r.update(empty_result("timeout"))
     except Exception as e:
         r.update(empty_result(outcome_of_exception(e)))
+    r["ots"] = []
+    if st.get("allot"):
+        def callfn(it, vo, ot):
+            signal.alarm(watchdog)
+            try:
+                return prtpy.partition(algorithm=PART_ALGS[st["alg"]](), numbins=st["k"], items=it, valueof=vo, outputtype=ot, **part_kwargs(st))
+            finally:
+                signal.alarm(0)
+        r["ots"] = all_outputs(callfn, vals, lambda: present(vals, fmt))
     r.pop("sw", None)
     return r
 
@@ -294,3 +303,178 @@ def run_part_group(g):
         r.pop("vals", None); r.pop("k", None)
         res.append(r)
     return {"vals": g["vals"], "k": g["k"], "res": res}
+
+
+# ------------------------------------------------------------------ packing / covering calls
+OUTTYPES = {
+    "Sums": out.Sums, "LargestSum": out.LargestSum, "SmallestSum": out.SmallestSum, "ExtremeSums": out.ExtremeSums,
+    "SortedSums": out.SortedSums, "Difference": out.Difference, "BinCount": out.BinCount, "Partition": out.Partition,
+    "PartitionAndSumsTuple": out.PartitionAndSumsTuple, "PartitionAndSums": out.PartitionAndSums,
+}
+
+
+def pack_alg(name):
+    if name in PACK_ALGS:
+        return PACK_ALGS[name]()
+    return COVER_ALGS[name]()
+
+
+def _pack_call(alg, C, den, items, valueof, ot, watchdog):
+    signal.alarm(watchdog)
+    try:
+        binsize = C if den == 1 else C / den
+        return prtpy.pack(algorithm=pack_alg(alg), binsize=binsize, items=items, valueof=valueof, outputtype=ot)
+    finally:
+        signal.alarm(0)
+
+
+def run_pack(st, watchdog=20):
+    """st: {alg, vals, C, den, fmt, extra: bool} -> result record.  Values are numerators over den (a power of two)."""
+    vals, C, den = st["vals"], st["C"], st.get("den", 1)
+    fmt = st.get("fmt", "dict")
+    scale = (lambda v: v) if den == 1 else (lambda v: v / den)
+    r = dict(st)
+    r.pop("vals", None); r.pop("C", None); r.pop("den", None)
+    r.update({"bc": -1, "bcout": "skip", "so": [], "soout": "skip", "soexact": True})
+    try:
+        items, valueof, back = present(vals, fmt, scale if den != 1 else None)
+        ret = _pack_call(st["alg"], C, den, items, valueof, out.PartitionAndSumsTuple, watchdog)
+        vp = [scale(v) for v in vals]
+        r.update(norm_pst(ret, vp, back, den))
+    except Watchdog:
+        r.update(empty_result("timeout"))
+    except Exception as e:
+        r.update(empty_result(outcome_of_exception(e)))
+    r["ots"] = []
+    if st.get("allot"):
+        r["ots"] = all_outputs(lambda it, vo, ot: _pack_call(st["alg"], C, den, it, vo, ot, watchdog), [scale(v) for v in vals],
+                               lambda: present(vals, fmt, scale if den != 1 else None), den)
+    if st.get("extra", True):
+        try:
+            items, valueof, back = present(vals, fmt, scale if den != 1 else None)
+            bc = _pack_call(st["alg"], C, den, items, valueof, out.BinCount, watchdog)
+            r["bc"] = int(bc) if isinstance(bc, (int, np.integer)) and not isinstance(bc, bool) else -1
+            r["bcout"] = "ret"
+        except Watchdog:
+            r["bcout"] = "timeout"
+        except Exception as e:
+            r["bcout"] = outcome_of_exception(e)
+        try:
+            items, valueof, back = present(vals, fmt, scale if den != 1 else None)
+            so = _pack_call(st["alg"], C, den, items, valueof, out.Sums, watchdog)
+            r["so"], r["soexact"] = norm_sums(so, den)
+            r["soout"] = "ret"
+        except Watchdog:
+            r["soout"] = "timeout"
+        except Exception as e:
+            r["soout"] = outcome_of_exception(e)
+    return r
+
+
+def run_pack_group(g):
+    """g: {vals, C, den, calls:[{alg, fmt, ...}]} -> trace {vals, C, den, res:[...]}"""
+    res = []
+    for c in g["calls"]:
+        st = dict(c)
+        st["vals"] = g["vals"]; st["C"] = g["C"]; st["den"] = g.get("den", 1)
+        res.append(run_pack(st, g.get("watchdog", 20)))
+    t = {"vals": g["vals"], "C": g["C"], "den": g.get("den", 1), "orc": g.get("orc", 1), "res": res}
+    for extra in ("cert", "fam", "opt", "wit"):
+        if extra in g:
+            t[extra] = g[extra]
+    return t
+
+
+# ------------------------------------------------------------------ every output type of one call (C06, C19)
+def norm_output(tname, ret, vals_presented, back, den=1):
+    """normalise the value returned for output type tname to {t, out, v (ints), l (lists of ids), exact}"""
+    x = {"t": tname, "out": "ret", "v": [], "l": [], "exact": True}
+    try:
+        if tname in ("Sums", "SortedSums"):
+            x["v"], x["exact"] = norm_sums(ret, den)
+        elif tname in ("LargestSum", "SmallestSum", "Difference"):
+            x["v"], x["exact"] = norm_sums([ret], den)
+        elif tname == "ExtremeSums":
+            x["v"], x["exact"] = norm_sums(list(ret), den)
+            if len(x["v"]) != 2:
+                x["exact"] = False
+        elif tname == "BinCount":
+            ok = isinstance(ret, (int, np.integer)) and not isinstance(ret, bool)
+            x["v"], x["exact"] = ([int(ret)], True) if ok else ([0], False)
+        elif tname == "Partition":
+            x["l"] = lists_to_ids([list(b) for b in ret], vals_presented, back)
+        elif tname == "PartitionAndSumsTuple":
+            sums, lists = ret
+            x["v"], x["exact"] = norm_sums(sums, den)
+            x["l"] = lists_to_ids([list(b) for b in lists], vals_presented, back)
+        elif tname == "PartitionAndSums":
+            x["v"], x["exact"] = norm_sums(ret.sums, den)
+            x["l"] = lists_to_ids([list(b) for b in ret.lists], vals_presented, back)
+    except Exception as e:
+        x["out"] = "bad"
+    return x
+
+
+ALL_OT = ["Sums", "SortedSums", "LargestSum", "SmallestSum", "ExtremeSums", "Difference", "BinCount", "Partition", "PartitionAndSums", "PartitionAndSumsTuple"]
+
+
+def all_outputs(callfn, vals_presented, mk_present, den=1):
+    """callfn(items, valueof, outputtype) -> return value.  A fresh presentation is built for every call."""
+    res = []
+    for t in ALL_OT:
+        items, valueof, back = mk_present()
+        try:
+            ret = callfn(items, valueof, OUTTYPES[t])
+            res.append(norm_output(t, ret, vals_presented, back, den))
+        except Watchdog:
+            res.append({"t": t, "out": "timeout", "v": [], "l": [], "exact": True})
+        except Exception as e:
+            res.append({"t": t, "out": outcome_of_exception(e), "v": [], "l": [], "exact": True})
+    return res
+
+
+# ------------------------------------------------------------------ C19: refusals
+def run_refuse(st):
+    """st: {vals, kind, arg} (from RefuseGen) -> trace of cbldm calls in list / dict / valueof presentation + numitems probes"""
+    vals = list(st["vals"])
+    kind, arg = st["kind"], st["arg"]
+    k, kw = 2, {}
+    if kind == "k":
+        k = int(arg)
+    elif kind == "neg":
+        idx = {"first": [0], "last": [len(vals) - 1], "all": list(range(len(vals)))}[arg]
+        for i in idx:
+            vals[i] = -(vals[i] + 1)
+    elif kind == "limit":
+        kw["time_limit"] = float(arg) if "." in arg else int(arg)
+    elif kind == "bound":
+        kw["partition_difference"] = float(arg) if "." in arg else int(arg)
+    res = []
+    for fmt in ("list", "dict", "valueof"):
+        for ot in ("PartitionAndSumsTuple", "Sums"):
+            items, valueof, back = present(vals, fmt)
+            try:
+                signal.alarm(20)
+                try:
+                    prtpy.partition(algorithm=prt.cbldm, numbins=k, items=items, valueof=valueof, outputtype=OUTTYPES[ot], **kw)
+                finally:
+                    signal.alarm(0)
+                o = "ret"
+            except Watchdog:
+                o = "timeout"
+            except Exception as e:
+                o = outcome_of_exception(e)
+            res.append({"what": "cbldm", "kind": kind, "arg": arg, "fmt": fmt, "ot": ot, "out": o, "n": 0, "expect": 0})
+    # the sums-only manager refuses to count items; the contents manager counts them
+    for what, B in (("numitems_sums", prtpy.BinnerKeepingSums), ("numitems_contents", prtpy.BinnerKeepingContents)):
+        b = B()
+        bins = b.new_bins(2)
+        for v in st["vals"]:
+            b.add_item_to_bin(bins, v, 1)
+        try:
+            n = b.numitems(bins, 1)
+            ok = isinstance(n, (int, np.integer)) and not isinstance(n, bool)
+            res.append({"what": what, "kind": "-", "arg": "-", "fmt": "-", "ot": "-", "out": "ret", "n": int(n) if ok else -1, "expect": len(st["vals"])})
+        except Exception as e:
+            res.append({"what": what, "kind": "-", "arg": "-", "fmt": "-", "ot": "-", "out": outcome_of_exception(e), "n": 0, "expect": len(st["vals"])})
+    return {"vals": st["vals"], "res": res}
